@@ -215,7 +215,12 @@ def step (s : St) (kind : String) (args impl : List String) : Option (St × Step
     -- a seekable reader handed over mid-way whose first attempt ends retryable with backoff left
     let preAdv := s.skip > 0 ∧ s.cfg.kind = .plain ∧ (s.impl = "section" ∨ s.impl = "seeker" ∨ s.impl = "file") ∧
       s.cfg.bo > 0 ∧ wantsRetry s.cfg (s.script.headD .net)
-    let br := if preAdv then "pre-advanced-seekable-body-retried" else s!"send.{mode}.{kindT}.{resT}.att{natt}"
+    -- a transport error directly followed by a status answer, in a script longer than the budget allows
+    let rec errThenStatus : List Outcome → Bool
+      | a :: b :: rest => (a.isErr && !b.isErr) || errThenStatus (b :: rest)
+      | _ => false
+    let mixedLong := errThenStatus s.script ∧ s.script.length > s.cfg.bo + 1
+    let br := if preAdv then "pre-advanced-seekable-body-retried" else if mixedLong then "mixed-error-then-status-script" else s!"send.{mode}.{kindT}.{resT}.att{natt}"
     some (s, { obs := obs, propfails := pfs, branch := br })
   | _, _ => none
 
